@@ -38,11 +38,12 @@ RULE = ('attr: 1..5 vendor subsections x 1..4 File/Section/Symbol sub-subsection
         'ULEB operands of 1..4 bytes x successor classes, both byte orders. Non-trivial: attr case with >=2 subsections or '
         '>=2 sub-subsections in one subsection; exidx case with a displacement whose bits 26 and 30 differ or byte-code with '
         'a multi-byte operand. Distinct by SHA-1 of (encoded file, consumption pattern).')
-N = {'quick': 5000, 'thorough': 200000}
+N = {'quick': 5000, 'thorough': 150000}
 ASSUMPTIONS = [
     'only tags present in the library tag tables are generated (unknown tags are rejected by design); the value kind of a tag '
     'is taken from a hand-written table (ARM IHI 0045: 4,5,67 NTBS; 32 uleb+NTBS; 65 nested; RISC-V psABI: 5 NTBS; rest uleb)',
-    'Tag_also_compatible_with nests a uleb-valued tag (value + NUL) or an NTBS-valued tag (its own NUL terminates); other nestings are not generated',
+    'Tag_also_compatible_with nests a uleb-valued tag (value + NUL) or an NTBS-valued tag (its own NUL terminates); other nestings are '
+    'not generated; the nested bytes contain no NUL before the terminator (value >= 1, minimal ulebs) because the value is an NTBS',
     'NTBS values and vendor names are valid UTF-8 without NUL',
     'byte-code sequences consist of complete opcodes and are padded with 0xb0 (finish); 0xb2 operands are 1..4 ULEB bytes',
     'disassembly text follows llvm-readobj ARMEHABIPrinter.h (cited by elftools/ehabi/decoder.py), incl. its 32-register mask '
@@ -145,6 +146,7 @@ def enc_attr(arch, a):
         n = a['n']
         nk = tag_kind(arch, n['t'])
         assert nk in ('u', 's')
+        assert b'\0' not in enc_attr(arch, n)[:-1 if nk == 's' else None], 'NUL inside the nested NTBS'
         out += enc_attr(arch, n)
         if nk == 'u':
             out += b'\0'        # terminator of the enclosing NTBS; an NTBS-valued nested tag ends it itself
@@ -549,6 +551,12 @@ def gen_attr(ch, arch, tags, nested_ok=True):
         inner = ch.choice([[6], [6], ARM_ULEB, sorted(ARM_NTBS)])
         inner = [x for x in inner if x in tags] or [6]
         a['n'] = gen_attr(ch, arch, inner, False)
+    if not nested_ok:
+        # the nested tag/value live inside an NTBS: no NUL byte before the terminator (value >= 1, minimal encodings)
+        a.pop('tp', None)
+        a.pop('vp', None)
+        if 'v' in a and a['v'] == 0:
+            a['v'] = 1
     return a
 
 
@@ -988,7 +996,7 @@ def run_exidx(ctx, case):
                 if bs[0] == 0xb2:
                     ctx.count('ehabi.b2.uleb_len=%d' % (len(bs) - 1))
             if e['kind'] in ('t1', 't2'):
-                ctx.count('exidx.extra_words.%d' % ((len(c) - 2) // 4))
+                ctx.count('exidx.extra_words.%s' % (min((len(c) - 2) // 4, 7) if (len(c) - 2) // 4 < 7 else '7+'))
     ctx.count('exidx.%s' % ('le' if case['le'] else 'be'))
     ctx.count('exidx.et.%d' % case.get('et', 3))
     ctx.count('exidx.n.%s' % ('0' if not ents else '1-9' if len(ents) < 10 else '10+'))
@@ -1301,6 +1309,9 @@ def sweep(tier):
                 es.append({'kind': k, 'disp': -4, 'nw': nw, 'code': bytes((0x01 + i) & 0x3f for i in range(2 + 4 * nw)),
                            'trail': [0, 0x12345678]})
         cases.append(_exidx_case(es, le, split=7))
+        # counts beyond the usual range: the count field is a full byte
+        cases.append(_exidx_case([{'kind': 't1', 'disp': 8, 'nw': nw, 'code': bytes((0x3f - i) & 0x3f for i in range(2 + 4 * nw))}
+                                  for nw in (7, 16, 17, 128, 255)], le, tab_first=not le))
         cases.append(_exidx_case([], le))
     # --- attributes: every tag x value shapes, lock-step
     ch = RndChooser(20)
@@ -1325,8 +1336,8 @@ def sweep(tier):
                         for it in tags:
                             ik = tag_kind(arch, it)
                             if ik == 'u':
-                                attrs.append({'t': t, 'n': {'t': it, 'v': (it * 3) % 200, 'vp': it % 3}})
-                                attrs.append({'t': t, 'n': {'t': it, 'v': 0}})
+                                attrs.append({'t': t, 'n': {'t': it, 'v': 1 + (it * 3) % 200}})
+                                attrs.append({'t': t, 'n': {'t': it, 'v': 1 << (it % 40)}})
                             elif ik == 's':
                                 attrs.append({'t': t, 'n': {'t': it, 's': 'v7'}})
                                 attrs.append({'t': t, 'n': {'t': it, 's': ''}})
@@ -1450,16 +1461,94 @@ def referee(cases, verbose=False):
     return nfiles, nent, bad
 
 
+def parse_readelf_attrs(text):
+    """`readelf -A` -> [[vendor, [[scope name, numbers|None, attribute lines]...]]...]"""
+    subs = []
+    for line in text.splitlines():
+        if line.startswith('Attribute Section: '):
+            subs.append([line[len('Attribute Section: '):], []])
+        elif line.startswith('File Attributes'):
+            subs[-1][1].append(['TAG_FILE', None, 0])
+        elif line.startswith('Section Attributes:') or line.startswith('Symbol Attributes:'):
+            nums = [int(x) for x in line.split(':', 1)[1].split()]
+            subs[-1][1].append(['TAG_SECTION' if line.startswith('Sec') else 'TAG_SYMBOL', nums, 0])
+        elif line.startswith('  Tag_'):
+            subs[-1][1][-1][2] += 1
+    return subs
+
+
+def referee_attr_cases(n, seed):
+    """attribute cases binutils 2.40 can display completely.  Its limits (not the format's): scope tag read as one byte,
+    a sub-subsection needs >= 1 attribute byte, values must fit 32 bits, Tag_nodefaults is skipped as exactly one byte,
+    Tag_RISCV_unaligned_access > 1 is printed without a newline, only the public vendor is displayed."""
+    ch = RndChooser(seed)
+    out = []
+    while len(out) < n:
+        c = gen_attr_case(ch, 'quick', pattern='lockstep')
+        for s in c['subs']:
+            s['vendor'] = 'aeabi' if c['arch'] == 'arm' else 'riscv'
+            for ss in s['subsubs']:
+                ss.pop('sp', None)
+                if not ss['attrs']:
+                    ss['attrs'] = [{'t': 6, 'v': 1}]
+                for a in ss['attrs']:
+                    for x in (a, a.get('n', {})):
+                        if 's' in x and not all(32 <= ord(ch_) < 127 for ch_ in x['s']):
+                            x['s'] = 'str'
+                        if 'v' in x:
+                            x['v'] = (x['v'] & 0x7fffffff) or (1 if x is not a else 0)
+                        if x.get('t') == 64 and c['arch'] == 'arm':
+                            if x is a:
+                                x['v'], x['vp'] = 0, 0
+                            else:
+                                x['t'] = 6
+                        if x.get('t') == 6 and c['arch'] == 'riscv':
+                            x['v'] &= 1
+        out.append(c)
+    return out
+
+
+def referee_attr(cases):
+    """binutils `readelf -A` vs. my attribute encoder: subsections, vendors, scopes, number lists, attribute counts"""
+    bad = []
+    n = 0
+    tmp = tempfile.mkdtemp(prefix='c20ref_')
+    try:
+        for ci, case in enumerate(cases):
+            data, R, exp = build_attr_elf(case)
+            p = os.path.join(tmp, 'a.elf')
+            with open(p, 'wb') as f:
+                f.write(data)
+            r = subprocess.run(['readelf', '-A', p], stdout=subprocess.PIPE, stderr=subprocess.PIPE, text=True, errors='replace')
+            if r.returncode != 0 or r.stderr.strip():
+                bad.append('attr case %d: readelf rc=%d stderr=%s' % (ci, r.returncode, r.stderr.strip()[:300]))
+                continue
+            got = parse_readelf_attrs(r.stdout)
+            mine = [[S[1], [[SS[0], SS[2], len(SS[3])] for SS in S[2]]] for S in exp]
+            n += 1
+            if got != mine:
+                bad.append('attr case %d: readelf %r mine %r' % (ci, got, mine))
+    finally:
+        shutil.rmtree(tmp, ignore_errors=True)
+    return n, bad
+
+
 def bulk(ctx, tier, shard, nshards):
-    if tier != 'thorough' or shard != 0 or not have_referee():
+    if tier != 'thorough' or shard != 0:
         return
     from vf.core import HarnessError
-    cases = [c for c in sweep(tier) if c['k'] == 'exidx']
-    nfiles, nent, bad = referee(cases)
-    ctx.count('referee.files', nfiles)
-    ctx.count('referee.entries', nent)
-    if bad:
-        raise HarnessError('llvm-readelf -u disagrees with the C20 encoder/disassembler: %s' % '; '.join(bad[:5]))
+    if have_referee():
+        cases = [c for c in sweep(tier) if c['k'] == 'exidx']
+        nfiles, nent, bad = referee(cases)
+        ctx.count('referee.exidx_files', nfiles)
+        ctx.count('referee.exidx_entries', nent)
+        if bad:
+            raise HarnessError('llvm-readelf -u disagrees with the C20 encoder/disassembler: %s' % '; '.join(bad[:5]))
+    if shutil.which('readelf') is not None:
+        n, bad = referee_attr(referee_attr_cases(300, 5))
+        ctx.count('referee.attr_files', n)
+        if bad:
+            raise HarnessError('readelf -A disagrees with the C20 attribute encoder: %s' % '; '.join(bad[:3]))
 
 
 def floors(ctx):
@@ -1473,7 +1562,7 @@ def floors(ctx):
             'ehabi.b2.uleb_len=1', 'ehabi.b2.uleb_len=2', 'ehabi.b2.uleb_len=3', 'ehabi.b2.uleb_len=4']
     need += ['attr.pattern.%s' % p for p in PATTERNS]
     need += ['exidx.kind.%s' % k for k in ALL_KINDS]
-    need += ['exidx.extra_words.%d' % i for i in range(7)]
+    need += ['exidx.extra_words.%s' % i for i in (0, 1, 2, 3, 4, 5, 6, '7+')]
     need += ['ehabi.op.%s' % x for x in sorted(set(op_class(b) for b in range(256)))]
     return ['counter %s is 0' % k for k in need if not c.get(k)]
 
@@ -1492,4 +1581,8 @@ if __name__ == '__main__':
         print('referee: files=%d entries=%d disagreements=%d' % (nf, ne, len(bad)))
         for b in bad[:40]:
             print('  ', b)
-        sys.exit(2 if bad else 0)
+        n, bad2 = referee_attr(referee_attr_cases(400, int(sys.argv[3]) if len(sys.argv) > 3 else 5))
+        print('referee attr: files=%d disagreements=%d' % (n, len(bad2)))
+        for b in bad2[:10]:
+            print('  ', b[:1500])
+        sys.exit(2 if bad or bad2 else 0)
